@@ -42,6 +42,19 @@ def _limited(go):
         signal.signal(signal.SIGALRM, old)
 
 
+def _keep(go, caught):
+    from liquid2.exceptions import LiquidError
+    try:
+        return go()
+    except LiquidError as e:
+        caught.append(e)
+        raise
+
+
+def judge_positions(rec, opts):
+    return judge(rec, {"_positions": True})
+
+
 def judge(rec, opts):
     from liquid2 import CachingDictLoader, DictLoader
     out = []
@@ -60,7 +73,17 @@ def judge(rec, opts):
                     t = await env.get_template_async(main)
                     return await t.render_async(**args)
                 return drive(co)
-            got = _limited(go)
+            caught: list = []
+            got = _limited(lambda: _keep(go, caught))
+            # C17: an error raised while the chain renders names the template its position lies in
+            if opts.get("_positions"):
+                for e in caught:
+                    tok, tn = getattr(e, "token", None), getattr(e, "template_name", None)
+                    tsrc = getattr(tok, "source", None)
+                    if tn in templates and isinstance(tsrc, str) and tsrc != templates[tn] and tsrc in templates.values():
+                        out.append((f"error-names-another-template:{type(e).__name__}:{lname}:{mode}",
+                                    {"named": tn, "token_belongs_to": [n for n, t in templates.items() if t == tsrc], "error": str(e)[:300]}))
+                continue
             f = replay.compare(rec, got)
             if f is not None:
                 shape = "entered-via-" + main if main in ("inc", "ren") else ("mixed-chains" if main == "mix1" else "chain")
